@@ -98,6 +98,17 @@ def run_merge(db, case):
         return "merge_of_previously_merged_" + bad, got3
     if db.conn.total_changes != tc:
         return "database_changed", None
+    # objects an earlier merge() YIELDED (some carry children from then) merged again under a criterion that never accepts: nothing joins anything,
+    # so every input is yielded as itself - and "yielded unchanged with no children" means no children, not the ones of last time
+    try:
+        outs1 = list(db.merge(objs, **kw))
+        again = list(db.merge(list(outs1), merge_criteria=[lambda acc, cur, comps: False]))
+    except Exception as e:  # noqa
+        return "merge_of_outputs_raised:" + type(e).__name__, None
+    if len(again) != len(outs1) or any(a is not b for a, b in zip(again, outs1)):
+        return "merge_of_outputs_not_yielded_themselves", None
+    if any(len(getattr(o, "children", ()) or ()) for o in again):
+        return "singleton_output_carries_stale_children", None
     # "fresh distinct ids": no merged output of any of the three calls on this handle carries an id that another merged output got
     mids = [g["id"] for got in (got1, got2, got3) for g in got if g["kids"]]
     if len(set(mids)) != len(mids):
